@@ -6,6 +6,7 @@ mod c08;
 mod c09;
 mod c11;
 mod c12;
+mod c13;
 mod c14;
 mod c15;
 mod c16;
@@ -33,6 +34,7 @@ fn main() {
         "C09" => c09::run(cli),
         "C11" => c11::run(cli),
         "C12" => c12::run(cli),
+        "C13" => c13::run(cli),
         "C14" => c14::run(cli),
         "C15" => c15::run(cli),
         "C16" => c16::run(cli),
